@@ -28,7 +28,8 @@ inductive TxEffect (s : St) : Tx → St → Prop
       (hp : purgeBlocks s v s.height = false) :
       TxEffect s (.unstake v d a) (unstakeOk s v d a r)
   | withdraw (v d : Addr) (a : Int) (h0 : 0 < a) (hlt : a < two63) (hc : coinOf a = a * oltBase)
-      (ho : otherAddr s v d = false) (hf : s.frozen v = false) (hb : a ≤ s.bnd d) :
+      (ho : otherAddr s v d = false) (hf : s.frozen v = false) (hfo : frozenOwner s d = false)
+      (hb : a ≤ s.bnd d) :
       TxEffect s (.withdraw v d a) (withdrawOk s d a)
   | freeze (v : Addr) : TxEffect s (.freeze v) { s with frozen := upd s.frozen v true }
   | release (v : Addr) : TxEffect s (.release v) { s with frozen := upd s.frozen v false }
@@ -36,6 +37,7 @@ inductive TxEffect (s : St) : Tx → St → Prop
   | closeRequest (v : Addr) : TxEffect s (.closeRequest v) { s with req := upd s.req v false }
   | setMaturity (m : Int) : TxEffect s (.setMaturity m) { s with maturity := m }
   | credit (d : Addr) (x : Int) : TxEffect s (.credit d x) { s with bal := upd s.bal d (s.bal d + x) }
+  | setIterVals (l : List Addr) : TxEffect s (.setIterVals l) { s with iterVals := l }
 
 theorem stepTx_effect (s : St) (t : Tx) : TxEffect s t (stepTx s t).1 := by
   cases t with
@@ -48,9 +50,9 @@ theorem stepTx_effect (s : St) (t : Tx) : TxEffect s t (stepTx s t).1 := by
     · simp only [stepTx]; rw [h.1]; exact .noop _
     · simp only [stepTx]; rw [he]; exact .unstake v d a r hv hsa h0 hlt hf hr h1 h2 h3 hp
   | withdraw v d a =>
-    rcases txWithdraw_cases s v d a with h | ⟨h0, hlt, hc, ho, hf, hb, he⟩
+    rcases txWithdraw_cases s v d a with h | ⟨h0, hlt, hc, ho, hf, hfo, hb, he⟩
     · simp only [stepTx]; rw [h.1]; exact .noop _
-    · simp only [stepTx]; rw [he]; exact .withdraw v d a h0 hlt hc ho hf hb
+    · simp only [stepTx]; rw [he]; exact .withdraw v d a h0 hlt hc ho hf hfo hb
   | genesisStake v d a =>
     rcases runGenesisStake_cases s v d a with h | ⟨hp, he⟩
     · simp only [stepTx]; rw [h.1]; exact .noop _
@@ -61,6 +63,7 @@ theorem stepTx_effect (s : St) (t : Tx) : TxEffect s t (stepTx s t).1 := by
   | closeRequest v => exact .closeRequest v
   | setMaturity m => exact .setMaturity m
   | credit d x => exact .credit d x
+  | setIterVals l => exact .setIterVals l
 
 /-- the entries of the genesis document are not validated by any handler: the amounts of
     `genesisStake` are assumed sane (a trusted input, as the genesis balances are) -/
@@ -133,7 +136,7 @@ theorem nonNeg_tx {s s' : St} {t : Tx} (h : NonNeg s) (ha : t.GenesisSane) (e : 
         · exact h.mat _ e he
         · subst he; exact ha'
       · exact h.mat k e he
-  | withdraw v d a h0 hlt hc ho hf hb =>
+  | withdraw v d a h0 hlt hc ho hf hfo hb =>
     refine ⟨h.vd, h.tot, h.eff, ?_, h.mat⟩
     intro d'
     have := h.bnd d'
@@ -144,6 +147,7 @@ theorem nonNeg_tx {s s' : St} {t : Tx} (h : NonNeg s) (ha : t.GenesisSane) (e : 
   | closeRequest v => exact ⟨h.vd, h.tot, h.eff, h.bnd, h.mat⟩
   | setMaturity m => exact ⟨h.vd, h.tot, h.eff, h.bnd, h.mat⟩
   | credit d x => exact ⟨h.vd, h.tot, h.eff, h.bnd, h.mat⟩
+  | setIterVals l => exact ⟨h.vd, h.tot, h.eff, h.bnd, h.mat⟩
 
 theorem nonNeg_runTxs {s : St} {txs : List Tx} (h : NonNeg s) (ha : ∀ t ∈ txs, t.GenesisSane) :
     NonNeg (runTxs s txs) := by
@@ -171,27 +175,23 @@ theorem nonNeg_uwr {s : St} (h : NonNeg s) (k : Int) : NonNeg (updateWithdrawRew
 
 theorem nonNeg_minus {s : St} (h : NonNeg s) (v d : Addr) (a : Int) :
     NonNeg (minusFromAddress s v d a).1 := by
-  rw [minus_fst]
-  refine ⟨?_, ?_, ?_, h.bnd, h.mat⟩
-  · intro v' d'
-    have := h.vd v' d'
-    show 0 ≤ (if s.tot v - a < 0 ∨ s.vd v d - a < 0 then s.vd else upd2 s.vd v d (s.vd v d - a)) v' d'
-    split
-    · exact this
-    · rw [upd2_apply]; split <;> omega
-  · intro v'
-    have := h.tot v'
-    show 0 ≤ (if s.tot v - a < 0 then s.tot else upd s.tot v (s.tot v - a)) v'
-    split
-    · exact this
-    · rw [upd_apply]; split <;> omega
-  · intro d'
-    have := h.eff d'
-    show 0 ≤ (if s.tot v - a < 0 ∨ s.vd v d - a < 0 ∨ s.eff d - a < 0 then s.eff
-              else upd s.eff d (s.eff d - a)) d'
-    split
-    · exact this
-    · rw [upd_apply]; split <;> omega
+  by_cases hm : (minusFromAddress s v d a).2 = true
+  · have hc := (minus_snd s v d a).mp hm
+    rw [minus_ok s v d a hm]
+    refine ⟨?_, ?_, ?_, h.bnd, h.mat⟩
+    · intro v' d'
+      have := h.vd v' d'
+      show 0 ≤ upd2 s.vd v d (s.vd v d - a) v' d'
+      rw [upd2_apply]; split <;> omega
+    · intro v'
+      have := h.tot v'
+      show 0 ≤ upd s.tot v (s.tot v - a) v'
+      rw [upd_apply]; split <;> omega
+    · intro d'
+      have := h.eff d'
+      show 0 ≤ upd s.eff d (s.eff d - a) d'
+      rw [upd_apply]; split <;> omega
+  · rw [minus_fail s v d a (by simpa using hm)]; exact h
 
 theorem nonNeg_slash {s : St} (c : Cfg) (h : NonNeg s) (v : Addr) : NonNeg (slash c s v) := by
   cases hp : s.prev v with
@@ -199,7 +199,7 @@ theorem nonNeg_slash {s : St} (c : Cfg) (h : NonNeg s) (v : Addr) : NonNeg (slas
   | some r' =>
     rw [slash_some c s v r' hp]
     have h0 : NonNeg { s with frozen := upd s.frozen v true } := ⟨h.vd, h.tot, h.eff, h.bnd, h.mat⟩
-    have h1 := nonNeg_minus h0 v r'.sa (c.pen (s.tot v))
+    have h1 := nonNeg_minus h0 v (slashAddr s v r') (c.pen (s.tot v))
     exact ⟨h1.vd, h1.tot, h1.eff, h1.bnd, h1.mat⟩
 
 theorem nonNeg_foldSlash {s : St} (c : Cfg) (h : NonNeg s) (g : List Addr) :
@@ -208,8 +208,8 @@ theorem nonNeg_foldSlash {s : St} (c : Cfg) (h : NonNeg s) (g : List Addr) :
   | nil => exact h
   | cons v t ih => exact ih (nonNeg_slash c h v)
 
-theorem nonNeg_endBlock {s : St} (c : Cfg) (h : NonNeg s) (g p : List Addr) :
-    NonNeg (endBlock c s g p) := by
+theorem nonNeg_endBlock {s : St} (c : Cfg) (h : NonNeg s) (g p dl : List Addr) :
+    NonNeg (endBlock c s g p dl) := by
   unfold OLP.Stake.endBlock
   split
   · exact h
@@ -226,7 +226,7 @@ def Block.GenesisSane (b : Block) : Prop := ∀ t ∈ b.txs, t.GenesisSane
 
 theorem nonNeg_execBlock {s : St} (c : Cfg) (h : NonNeg s) (b : Block) (hb : b.GenesisSane) :
     NonNeg (execBlock c s b) :=
-  nonNeg_commit (nonNeg_endBlock c (nonNeg_runTxs (nonNeg_beginBlock h _) hb) _ _)
+  nonNeg_commit (nonNeg_endBlock c (nonNeg_runTxs (nonNeg_beginBlock h _) hb) _ _ _)
 
 theorem nonNeg_run {s : St} (c : Cfg) (h : NonNeg s) (bs : List Block) (hb : ∀ b ∈ bs, b.GenesisSane) :
     NonNeg (run c s bs) := by
@@ -267,7 +267,7 @@ theorem cons_tx {s s' : St} {t : Tx} (h : Cons s) (e : TxEffect s t s') : Cons s
     by_eq d' d
     · subst hEq; simp; omega
     · simp [hEq]; omega
-  | withdraw v d a h0 hlt hc ho hf hb =>
+  | withdraw v d a h0 hlt hc ho hf hfo hb =>
     intro d'
     have := h d'
     simp only [withdrawOk, upd_apply]
@@ -280,6 +280,7 @@ theorem cons_tx {s s' : St} {t : Tx} (h : Cons s) (e : TxEffect s t s') : Cons s
   | closeRequest v => exact h
   | setMaturity m => exact h
   | credit d x => exact h
+  | setIterVals l => exact h
 
 theorem cons_runTxs {s : St} {txs : List Tx} (h : Cons s) : Cons (runTxs s txs) := by
   induction txs generalizing s with
@@ -302,13 +303,14 @@ theorem cons_slash {s : St} (c : Cfg) (h : Cons s) (v : Addr) : Cons (slash c s 
     rw [slash_some c s v r' hp]
     intro d
     have := h d
+    generalize slashAddr s v r' = sa
     simp only [minus_fst, upd_apply]
-    by_cases hd : d = r'.sa
+    by_cases hd : d = sa
     · subst hd; simp only [if_true]; omega
     · simp only [hd, if_false]
-      have : (if s.tot v - c.pen (s.tot v) < 0 ∨ s.vd v r'.sa - c.pen (s.tot v) < 0 ∨
-                s.eff r'.sa - c.pen (s.tot v) < 0 then s.eff
-              else upd s.eff r'.sa (s.eff r'.sa - c.pen (s.tot v))) d = s.eff d := by
+      have : (if s.tot v - c.pen (s.tot v) < 0 ∨ s.vd v sa - c.pen (s.tot v) < 0 ∨
+                s.eff sa - c.pen (s.tot v) < 0 then s.eff
+              else upd s.eff sa (s.eff sa - c.pen (s.tot v))) d = s.eff d := by
         split
         · rfl
         · exact upd_ne _ _ _ _ hd
@@ -320,8 +322,8 @@ theorem cons_foldSlash {s : St} (c : Cfg) (h : Cons s) (g : List Addr) :
   | nil => exact h
   | cons v t ih => exact ih (cons_slash c h v)
 
-theorem cons_endBlock {s : St} (c : Cfg) (h : Cons s) (g p : List Addr) :
-    Cons (endBlock c s g p) := by
+theorem cons_endBlock {s : St} (c : Cfg) (h : Cons s) (g p dl : List Addr) :
+    Cons (endBlock c s g p dl) := by
   unfold OLP.Stake.endBlock
   split
   · exact h
@@ -332,7 +334,7 @@ theorem cons_endBlock {s : St} (c : Cfg) (h : Cons s) (g p : List Addr) :
 theorem cons_execBlock {s : St} (c : Cfg) (h : Cons s) (b : Block) : Cons (execBlock c s b) := by
   unfold OLP.Stake.execBlock
   have h1 : Cons (beginBlock s (s.height + 1)) := h
-  exact cons_endBlock c (cons_runTxs (txs := b.txs) h1) b.guilty b.purged
+  exact cons_endBlock c (cons_runTxs (txs := b.txs) h1) b.guilty b.purged b.deletable
 
 theorem cons_run {s : St} (c : Cfg) (h : Cons s) (bs : List Block) : Cons (run c s bs) := by
   induction bs generalizing s with
